@@ -278,3 +278,15 @@ add('B44', x4('SRC/?sp_blas2.c', "			irow = L_SUB(iptr);\n			++luptr;", "			++lu
 add('B45', x4('SRC/?gsitrf.c', "		    xlusup[jj + 1]++;\n", "		    xlusup[jj + 1] += 1;\n"), [], ['C09', 'C15'], note='reservation written as += 1')
 add('B46', x4('SRC/ilu_?drop_row.c', "    for (i = first + 1; i <= last + 1; i++)", "    for (i = first + 1; i < last + 2; i++)"), [], ['C03'], note='pointer fix-up loop with an exclusive bound')
 add('B47', x4('SRC/?lacon2.c', "*n - 1) + 1.);", "*n - 1) + 1.0);"), [], ['C12', 'C13'], note='literal spelling in the alternating vector')
+
+# ---------------------------------------------------------------- benign edits aimed at the rules of DESIGN 12.13 (round 6)
+add('B48d', [('SRC/dmemory.c', "	lusup = (double *) dexpand( &nzlumax, LUSUP, 0, 0, Glu );\n	ucol  = (double *) dexpand( &nzumax, UCOL, 0, 0, Glu );\n	lsub  = (int_t *) dexpand( &nzlmax, LSUB, 0, 0, Glu );\n	usub  = (int_t *) dexpand( &nzumax, USUB, 0, 1, Glu );\n\n	while",
+              "	lusup = (double *) dexpand( &nzlumax, LUSUP, 0, 0, Glu );\n	ucol  = (double *) dexpand( &nzumax, UCOL, 0, 0, Glu );\n	/* index arrays */\n	lsub  = (int_t *) dexpand( &nzlmax, LSUB, 0, 0, Glu );\n	usub  = (int_t *) dexpand( &nzumax, USUB, 0, 1, Glu );\n\n	while")], [], ['C07', 'C08'],
+    note='comment between the value arrays and the index arrays of the first allocation group (d only: s differs textually only)')
+add('B49', [('SRC/util.c', "	for (k = fsupc+1; k < xsup[i+1]; k++) \n	    	xlsub[k] = nextl;	/* Other columns in supernode i */", "	for (k = xsup[i+1] - 1; k > fsupc; k--) \n	    	xlsub[k] = nextl;	/* Other columns in supernode i */")], [], ['C03', 'C05'],
+    note='fixupL: the other columns visited from the last to the first')
+add('B50', x4('SRC/?gsequ.c', "    rcmin = bignum;\n    rcmax = 0.;\n    for (i = 0; i < A->nrow; ++i) {", "    rcmax = 0.0;\n    rcmin = bignum;\n    for (i = 0; i < A->nrow; ++i) {"), [], ['C11'], note='initialisations of the row pass swapped, 0. spelt 0.0')
+add('B51', x4('SRC/ilu_?pivotL.c', "	    case SMILU_3:\n                /* In this case, drop_sum contains the sum of the abs. value */", "	    case SMILU_3:\n                /* drop_sum holds the sum of the absolute values here */"), [], ['C15'], note='comment in the scan switch')
+add('B52', x4('SRC/?ldperm.c', "    if ( job == 5 )\n        for (i = 0; i < n; ++i) {", "    if ( 5 == job )\n        for (i = 0; i < n; ++i) {"), [], ['C17'], note='operands of the job test swapped')
+add('B53', [('SRC/get_perm_c.c', "    COLAMD_set_defaults(knobs);", "    COLAMD_set_defaults(knobs);\n    knobs[0] = knobs[0];")], [], ['C09', 'C10'], note='a no-op on the knobs after the defaults')
+add('B54', x4('SRC/?gstrs.c', "		    rhs_work += ldb;", "		    rhs_work = rhs_work + ldb;"), [], ['C20', 'C01', 'C05'], note='column step of the walking pointer written as an assignment')
